@@ -54,6 +54,7 @@ func c13Universe(tier string) (strs []string, nkeys int) {
 	for _, s := range spell {
 		strs = append(strs, Keys[0].Spell(s))
 	}
+	strs = append(strs, "04") // a (mis-)enabled string that is a strict prefix of every real key
 	return
 }
 
